@@ -5,7 +5,7 @@
 //!                                  EmmyLuaAnalysis (each tagged "prop"), then a summary line
 //!   c08 one    --case-json '{}' -> replay one search case
 use emmylua_code_analysis::{
-    DbIndex, DiagnosticCode, DiagnosticIndex, EmmyLuaAnalysis, Emmyrc, FileId, LuaDeclId, LuaDeclTypeKind, LuaGlobalIndex, LuaIndex,
+    DbIndex, DiagnosticCode, DiagnosticIndex, EmmyLuaAnalysis, Emmyrc, EmmyrcWorkspaceModuleMap, FileId, LuaDeclId, LuaDeclTypeKind, LuaGlobalIndex, LuaIndex,
     LuaMember, LuaMemberFeature, LuaMemberId, LuaMemberIndex, LuaMemberKey, LuaMemberOwner, LuaPropertyIndex, LuaSemanticDeclId, LuaType, LuaTypeDecl, LuaTypeDeclId, LuaTypeIndex, RenderLevel,
     WorkspaceFolder, file_path_to_uri, humanize_type,
 };
@@ -338,11 +338,12 @@ struct WFile {
 fn snippet(rng: &mut Rng, idx: usize, nfiles: usize) -> String {
     let k = rng.below(3);
     let j = rng.below(3);
-    match rng.below(22) {
+    let fty = ["integer", "string", "boolean"][idx % 3];
+    let body = match rng.below(30) {
         0 | 1 => format!("---Doc of C{k} written in file {idx}\n---@class C{k}\n---@field a{idx} number\nC{k} = C{k} or {{}}\n"),
         2 | 3 => format!("---@class C{k}\n---@field b{idx} string\n"),
         4 => format!("---@class D{idx}: C{k}\nlocal d{idx} = {{}}\nd{idx}.x = 1\n"),
-        5 | 6 => format!("---doc for global G{k} from file {idx}\nG{k} = {idx}\n"),
+        5 | 6 => format!("---doc for global G{k} from file {idx}\nG{k} = \"g\"\n"),
         7 | 8 => format!("print(G{k})\n"),
         9 | 10 => format!("local r{idx}_{j} = require(\"m{}\")\n", rng.below(nfiles)),
         11 => format!("---@alias A{k} string|number\n---@type A{k}\nlocal al{idx}_{j} = 1\n"),
@@ -354,8 +355,18 @@ fn snippet(rng: &mut Rng, idx: usize, nfiles: usize) -> String {
         18 => format!("---@class Box{idx}<T>\n---@field v T\n"),
         19 => format!("local mt{idx}_{j} = setmetatable({{}}, {{ __index = C{k} }})\n"),
         20 => format!("---@class C{k}\n---@operator add(C{k}): C{k}\n"),
-        _ => format!("---@schema https://example.invalid/s{k}.json\nlocal sch{idx}_{j} = {{}}\n"),
-    }
+        21 => format!("---@schema https://example.invalid/s{k}.json\nlocal sch{idx}_{j} = {{}}\n"),
+        // the same field of one class declared in several files (with a type that depends on the file)
+        22 | 23 => format!("---@class C{k}\n---@field level {fty}\n---@field only{idx} number\n"),
+        24 => format!("---@type C{k}\nlocal cv{idx}_{j} = nil\nlocal lv{idx}_{j} = cv{idx}_{j} and cv{idx}_{j}.level\n"),
+        // a class split across files whose super clause lives in one of them
+        25 | 26 => format!("---@class C{k}: P{j}\n---@field sub{idx} number\n"),
+        27 => format!("---@class P{j}\n---@field base_id integer\n"),
+        28 => format!("---@type C{k}\nlocal pv{idx}_{j} = nil\nlocal pb{idx}_{j} = pv{idx}_{j} and pv{idx}_{j}.base_id\n"),
+        _ => format!("local ra{idx}_{j} = require(\"alias_m{}\")\n", rng.below(nfiles)),
+    };
+    // a blank line keeps the doc comment of one snippet from merging with the next one
+    format!("{body}\n")
 }
 
 fn gen_text(rng: &mut Rng, idx: usize, nfiles: usize) -> String {
@@ -363,13 +374,28 @@ fn gen_text(rng: &mut Rng, idx: usize, nfiles: usize) -> String {
     if rng.chance(1, 10) {
         s.push_str("---@diagnostic disable: undefined-global\n");
     }
-    s.push_str(&format!("local M{idx} = {{}}\n"));
+    s.push_str(&format!("local M{idx} = {{}}\n\n"));
     let n = rng.range(1, 5);
     for _ in 0..n {
         s.push_str(&snippet(rng, idx, nfiles));
     }
     s.push_str(&format!("return M{idx}\n"));
     s
+}
+
+/// configurations a history can switch between (the LS applies a new configuration and reindexes)
+const NCONFIGS: usize = 6;
+fn config_of(k: usize) -> Emmyrc {
+    let mut rc = Emmyrc::default();
+    match k {
+        1 => rc.workspace.module_map = vec![EmmyrcWorkspaceModuleMap { pattern: "^alias_(.*)$".into(), replace: "$1".into() }],
+        2 => rc.workspace.module_map = vec![EmmyrcWorkspaceModuleMap { pattern: "^m0$".into(), replace: "m1".into() }, EmmyrcWorkspaceModuleMap { pattern: "^alias_m(.*)$".into(), replace: "sub.m$1".into() }],
+        3 => rc.strict.require_path = true,
+        4 => rc.runtime.require_pattern = vec!["?.lua".into(), "?/main.lua".into(), "sub/?.lua".into()],
+        5 => rc.runtime.extensions = vec![".lua".into(), ".luau".into()],
+        _ => {}
+    }
+    rc
 }
 
 fn gen_case(rng: &mut Rng) -> Value {
@@ -388,11 +414,12 @@ fn gen_case(rng: &mut Rng) -> Value {
         let alt = if rng.chance(1, 2) { gen_text(rng, i, nfiles) } else { format!("{text}\n-- trailing edit\nlocal extra{i} = G0\n") };
         files.push(json!({"path": path, "text": text, "alt": alt}));
     }
+    let cfg0 = if rng.chance(1, 3) { rng.below(NCONFIGS) } else { 0 };
     let mut steps = Vec::new();
     let n = rng.range(2, 8);
     for _ in 0..n {
         let i = rng.below(nfiles);
-        match rng.below(12) {
+        match rng.below(14) {
             0..=3 => steps.push(json!(["resubmit", i])),
             4 => {
                 let mut set: Vec<usize> = (0..nfiles).filter(|_| rng.chance(1, 2)).collect();
@@ -405,18 +432,23 @@ fn gen_case(rng: &mut Rng) -> Value {
             7 | 8 => steps.push(json!(["remove", i])),
             9 => steps.push(json!(["readd", i])),
             10 => steps.push(json!(["edit", i])),
+            11 => {
+                // a configuration change is followed by a reindex, as in the server
+                steps.push(json!(["config", if rng.chance(1, 3) { 0 } else { rng.below(NCONFIGS) }]));
+                steps.push(json!(["reindex"]));
+            }
             _ => steps.push(json!(["reindex"])),
         }
     }
     if rng.chance(1, 2) {
         steps.push(json!(["reindex"]));
     }
-    json!({"lib": with_lib, "files": files, "steps": steps, "single": rng.chance(1, 4)})
+    json!({"lib": with_lib, "files": files, "steps": steps, "single": rng.chance(1, 4), "cfg": cfg0})
 }
 
-fn new_analysis(with_lib: bool) -> EmmyLuaAnalysis {
+fn new_analysis(with_lib: bool, cfg: usize) -> EmmyLuaAnalysis {
     let mut a = EmmyLuaAnalysis::new();
-    a.update_config(Arc::new(Emmyrc::default()));
+    a.update_config(Arc::new(config_of(cfg)));
     a.add_main_workspace(PathBuf::from("/w"));
     if with_lib {
         a.add_library_workspace(&WorkspaceFolder::new(PathBuf::from("/lib"), true));
@@ -515,7 +547,7 @@ fn dump(a: &EmmyLuaAnalysis, live: &[(String, FileId)]) -> BTreeSet<String> {
             let off = u32::from(tok.text_range().start());
             match sm.get_semantic_info(rowan::NodeOrToken::Token(tok.clone())) {
                 None => {
-                    out.insert(format!("tok|{path}|{off}|{}|<none>", tok.text()));
+                    out.insert(format!("tokty|{path}|{off}|{}|<none>", tok.text()));
                 }
                 Some(info) => {
                     let ty = humanize_type(db, &info.typ, RenderLevel::Detailed);
@@ -523,7 +555,9 @@ fn dump(a: &EmmyLuaAnalysis, live: &[(String, FileId)]) -> BTreeSet<String> {
                         Some(d) => (decl_str(db, d), prop_str(db, d)),
                         None => ("-".to_string(), None),
                     };
-                    out.insert(format!("tok|{path}|{off}|{}|type={ty}|def={d}|doc={doc:?}", tok.text()));
+                    out.insert(format!("tokty|{path}|{off}|{}|{ty}", tok.text()));
+                    out.insert(format!("tokdef|{path}|{off}|{}|{d}", tok.text()));
+                    out.insert(format!("tokdoc|{path}|{off}|{}|{doc:?}", tok.text()));
                 }
             }
         }
@@ -657,8 +691,8 @@ struct Fresh {
     deterministic: bool,
 }
 
-fn fresh_analysis(with_lib: bool, files: &[(String, String)]) -> (EmmyLuaAnalysis, Vec<(String, FileId)>) {
-    let mut a = new_analysis(with_lib);
+fn fresh_analysis(with_lib: bool, cfg: usize, files: &[(String, String)]) -> (EmmyLuaAnalysis, Vec<(String, FileId)>) {
+    let mut a = new_analysis(with_lib, cfg);
     let batch: Vec<_> = files.iter().filter_map(|(p, t)| uri_of(p).map(|u| (u, Some(t.clone())))).collect();
     a.update_files_by_uri(batch);
     let live: Vec<(String, FileId)> = files.iter().filter_map(|(p, _)| uri_of(p).and_then(|u| a.get_file_id(&u)).map(|id| (p.clone(), id))).collect();
@@ -666,11 +700,11 @@ fn fresh_analysis(with_lib: bool, files: &[(String, String)]) -> (EmmyLuaAnalysi
 }
 
 /// fresh analysis of `files` (path, text) in this order; repeated `runs` times to detect non-determinism (C11)
-fn fresh(with_lib: bool, files: &[(String, String)], runs: usize) -> Fresh {
+fn fresh(with_lib: bool, cfg: usize, files: &[(String, String)], runs: usize) -> Fresh {
     let mut first: Option<(BTreeSet<String>, BTreeMap<String, usize>)> = None;
     let mut deterministic = true;
     for _ in 0..runs {
-        let (a, live) = fresh_analysis(with_lib, files);
+        let (a, live) = fresh_analysis(with_lib, cfg, files);
         let d = dump(&a, &live);
         let s = sizes(&a);
         match &first {
@@ -690,20 +724,114 @@ fn diff_lines(a: &BTreeSet<String>, b: &BTreeSet<String>) -> (Vec<String>, Vec<S
     (a.difference(b).cloned().collect(), b.difference(a).cloned().collect())
 }
 
-/// is every differing line about an entity (type or global) that has contributions from more than one file?
-fn is_shared_entity_diff(only_before: &[String], only_after: &[String], shared: &BTreeSet<String>) -> bool {
+/// entities that several files contribute to
+struct Shared {
+    types: BTreeSet<String>,   // declared by @class/@enum/@alias in more than one file
+    globals: BTreeSet<String>, // assigned in more than one file
+    fields: BTreeSet<String>,  // @field of that name in more than one file
+}
+
+fn norm_supers(l: &str) -> String {
+    // `...|supers=["P0", "P2"]|...` with the list sorted
+    if let (Some(i), Some(j)) = (l.find("|supers=["), l.find("]|generics=")) {
+        let inner = &l[i + 9..j];
+        let mut items: Vec<&str> = inner.split(", ").collect();
+        items.sort();
+        return format!("{}{}{}", &l[..i + 9], items.join(", "), &l[j..]);
+    }
+    l.to_string()
+}
+
+/// which recorded mechanism, or else which part of the observable dump, each differing line belongs to.
+/// Mechanisms (each a recorded finding: several files contribute to ONE key and the index keeps the contributions in
+/// submission order, or keeps only the last one):
+///   shared-owner-doc      : description / deprecation / visibility kept by LuaPropertyIndex per OWNER
+///   global-decl-order     : declarations of one global in LuaGlobalIndex (active only when the `globalq|G` line differs)
+///   member-decl-order     : declarations of one field of one class in LuaMemberIndex (definition target only)
+///   supers-order          : super clauses of one class in LuaTypeIndex (same set, different order)
+///   duplicate-module-path : files registered under one module path in LuaModuleIndex
+/// everything else is named after the section of the dump that differs.
+fn tags_of(only_before: &[String], only_after: &[String], sh: &Shared, dup_modules: bool) -> BTreeSet<String> {
     let all: Vec<&String> = only_before.iter().chain(only_after.iter()).collect();
-    let about_shared = |l: &String| -> bool {
-        let fields: Vec<&str> = l.splitn(5, '|').collect();
-        match fields.first().copied().unwrap_or("") {
-            "doc" | "stale-doc" => fields.get(1).and_then(|x| x.strip_prefix("type:")).map(|t| shared.contains(t)).unwrap_or(false),
-            "globalq" | "global" | "gref" | "type" | "member" | "tref" | "op" => fields.get(1).map(|t| shared.contains(*t)).unwrap_or(false),
-            "tok" => fields.get(3).map(|t| shared.contains(*t)).unwrap_or(false),
-            "diag" => l.contains("|deprecated|") || shared.iter().any(|t| l.contains(&format!("`{t}`"))),
-            _ => false,
+    let mut active_globals: BTreeSet<String> = BTreeSet::new();
+    for l in &all {
+        let f: Vec<&str> = l.splitn(3, '|').collect();
+        if f[0] == "globalq" && f.len() > 1 && sh.globals.contains(f[1]) {
+            active_globals.insert(f[1].to_string());
         }
-    };
-    !all.is_empty() && all.iter().all(|l| about_shared(l))
+    }
+    let nb: BTreeSet<String> = only_before.iter().filter(|l| l.starts_with("type|")).map(|l| norm_supers(l)).collect();
+    let na: BTreeSet<String> = only_after.iter().filter(|l| l.starts_with("type|")).map(|l| norm_supers(l)).collect();
+    let mut tags = BTreeSet::new();
+    for l in &all {
+        let f: Vec<&str> = l.splitn(5, '|').collect();
+        let name1 = f.get(1).copied().unwrap_or("");
+        let tok_name = f.get(3).copied().unwrap_or("");
+        let tag = match f[0] {
+            "doc" | "stale-doc" => {
+                if name1.strip_prefix("type:").map(|t| sh.types.contains(t)).unwrap_or(false) { "shared-owner-doc" } else { "hover-doc" }
+            }
+            "tokdoc" => {
+                if active_globals.contains(tok_name) {
+                    "global-decl-order"
+                } else if sh.types.contains(tok_name) {
+                    "shared-owner-doc"
+                } else {
+                    "hover-doc"
+                }
+            }
+            "diag" => {
+                if l.contains("|deprecated|") && !sh.types.is_empty() { "shared-owner-doc" } else { "diagnostics" }
+            }
+            "globalq" => {
+                if active_globals.contains(name1) { "global-decl-order" } else { "globals" }
+            }
+            "tokdef" => {
+                if active_globals.contains(tok_name) {
+                    "global-decl-order"
+                } else if sh.fields.contains(tok_name) {
+                    "member-decl-order"
+                } else {
+                    "definition-target"
+                }
+            }
+            "tokty" => "inferred-type",
+            "member" | "stale-member" => "member-set",
+            "type" => {
+                let n = norm_supers(l);
+                if nb.contains(&n) && na.contains(&n) { "supers-order" } else { "type-decl" }
+            }
+            "stale-supers" => "type-decl",
+            "req" | "mod" | "dep" => {
+                if dup_modules { "duplicate-module-path" } else if f[0] == "dep" { "dependency-edges" } else { "module-resolution" }
+            }
+            "global" | "gref" => "globals",
+            "decl" => "declarations-and-references",
+            "tref" | "sref" => "references",
+            "op" => "operators",
+            other => other,
+        };
+        tags.insert(tag.to_string());
+    }
+    tags
+}
+
+fn is_mechanism(t: &str) -> bool {
+    matches!(t, "shared-owner-doc" | "global-decl-order" | "member-decl-order" | "supers-order" | "duplicate-module-path" | "library-before-main-order")
+}
+
+/// two live files registered under one full module name?
+fn has_dup_modules(d: &BTreeSet<String>) -> bool {
+    let mut seen = BTreeSet::new();
+    for l in d {
+        if let Some(rest) = l.strip_prefix("mod|") {
+            let f: Vec<&str> = rest.splitn(3, '|').collect();
+            if f.len() >= 2 && f[1] != "<none>" && !seen.insert(f[1].to_string()) {
+                return true;
+            }
+        }
+    }
+    false
 }
 
 fn sections_of(only_before: &[String], only_after: &[String]) -> String {
@@ -723,11 +851,41 @@ fn remap(path: &str, remap_lib: bool) -> String {
     path.to_string()
 }
 
+fn shared_entities(files: &[WFile]) -> Shared {
+    let mut types: BTreeMap<String, BTreeSet<usize>> = BTreeMap::new();
+    let mut globals: BTreeMap<String, BTreeSet<usize>> = BTreeMap::new();
+    let mut fields: BTreeMap<String, BTreeSet<usize>> = BTreeMap::new();
+    let ident = |t: &str| -> String { t.chars().take_while(|c| c.is_alphanumeric() || *c == '_').collect() };
+    for (i, f) in files.iter().enumerate() {
+        for txt in [&f.text, &f.alt] {
+            for line in txt.lines() {
+                for tag in ["---@class ", "---@enum ", "---@alias "] {
+                    if let Some(rest) = line.strip_prefix(tag) {
+                        types.entry(ident(rest.trim_start_matches("(partial) "))).or_default().insert(i);
+                    }
+                }
+                if let Some(rest) = line.strip_prefix("---@field ") {
+                    fields.entry(ident(rest)).or_default().insert(i);
+                }
+                let t = line.trim_start();
+                let name = ident(t);
+                let rest = t[name.len()..].trim_start();
+                if !name.is_empty() && rest.starts_with('=') && !rest.starts_with("==") {
+                    globals.entry(name).or_default().insert(i);
+                }
+            }
+        }
+    }
+    let multi = |m: BTreeMap<String, BTreeSet<usize>>| -> BTreeSet<String> { m.into_iter().filter(|(_, fs)| fs.len() > 1).map(|(t, _)| t).collect() };
+    Shared { types: multi(types), globals: multi(globals), fields: multi(fields) }
+}
+
 /// returns whether anything was judged. `remap_lib`: run the same case with the library files moved into the main
 /// workspace (used to classify a violation as caused by the library-before-main analysis order)
 fn run_case(case: &Value, out: &mut Vec<Value>, stats: &mut BTreeMap<String, usize>, remap_lib: bool) -> bool {
     let with_lib = case["lib"].as_bool().unwrap_or(false) && !remap_lib;
     let single = case["single"].as_bool().unwrap_or(false);
+    let mut cfg = case["cfg"].as_u64().unwrap_or(0) as usize;
     let files: Vec<WFile> = case["files"]
         .as_array()
         .map(|a| a.iter().map(|f| WFile { path: remap(f["path"].as_str().unwrap_or(""), remap_lib), text: f["text"].as_str().unwrap_or("").into(), alt: f["alt"].as_str().unwrap_or("").into() }).collect())
@@ -736,12 +894,12 @@ fn run_case(case: &Value, out: &mut Vec<Value>, stats: &mut BTreeMap<String, usi
     let n = files.len();
     let mut cur: Vec<Option<String>> = files.iter().map(|f| Some(f.text.clone())).collect();
     let initial: Vec<(String, String)> = files.iter().map(|f| (f.path.clone(), f.text.clone())).collect();
-    let fr0 = fresh(with_lib, &initial, 3);
+    let fr0 = fresh(with_lib, cfg, &initial, 3);
     if !fr0.deterministic {
         *stats.entry("excluded_nondeterministic_fresh".into()).or_default() += 1;
         return false;
     }
-    let mut a = new_analysis(with_lib);
+    let mut a = new_analysis(with_lib, cfg);
     if single {
         for f in &files {
             if let Some(u) = uri_of(&f.path) {
@@ -757,34 +915,12 @@ fn run_case(case: &Value, out: &mut Vec<Value>, stats: &mut BTreeMap<String, usi
         (0..n).filter(|i| cur[*i].is_some()).filter_map(|i| uri_of(&files[i].path).and_then(|u| a.get_file_id(&u)).map(|id| (files[i].path.clone(), id))).collect()
     };
     let survivors = |cur: &Vec<Option<String>>| -> Vec<(String, String)> { (0..n).filter_map(|j| cur[j].clone().map(|t| (files[j].path.clone(), t))).collect() };
-    let shared_entities = || -> BTreeMap<String, BTreeSet<usize>> {
-        let mut per: BTreeMap<String, BTreeSet<usize>> = BTreeMap::new();
-        for i in 0..n {
-            for txt in [files[i].text.clone(), files[i].alt.clone()] {
-                for line in txt.lines() {
-                    for tag in ["---@class ", "---@enum ", "---@alias "] {
-                        if let Some(rest) = line.strip_prefix(tag) {
-                            let name: String = rest.trim_start_matches("(partial) ").chars().take_while(|c| c.is_alphanumeric() || *c == '_').collect();
-                            per.entry(name).or_default().insert(i);
-                        }
-                    }
-                    // global assignments `G1 = ..`, `C0 = C0 or {}`, `function C1.m(..)`
-                    let t = line.trim_start();
-                    let name: String = t.chars().take_while(|c| c.is_alphanumeric() || *c == '_').collect();
-                    if !name.is_empty() && t[name.len()..].trim_start().starts_with('=') && !t[name.len()..].trim_start().starts_with("==") {
-                        per.entry(name).or_default().insert(i);
-                    }
-                }
-            }
-        }
-        per.into_iter().filter(|(_, fs)| fs.len() > 1).collect()
-    };
+    let sh = shared_entities(&files);
     let mut baseline_dump = dump(&a, &live_of(&a, &cur));
     let mut baseline_sizes = sizes(&a);
     let mut consistent = true;
     let mut judged = false;
     if !single && (baseline_dump != fr0.dump) {
-        // the fresh runs agreed among themselves three times but this one differs: order dependence (C11); exclude
         *stats.entry("excluded_nondeterministic_fresh".into()).or_default() += 1;
         return false;
     }
@@ -794,7 +930,31 @@ fn run_case(case: &Value, out: &mut Vec<Value>, stats: &mut BTreeMap<String, usi
             out.push(json!({"prop": prop, "signature": sig, "what": what, "detail": detail, "case": case}));
         }
     };
-    let recheck_nondeterministic = |cur: &Vec<Option<String>>| -> bool { !fresh(with_lib, &survivors(cur), 10).deterministic };
+    // tags of a dump difference, with the library-before-main causal test: raw (non-mechanism) tags that vanish at
+    // this step when the library files live in the main workspace are attributed to that recorded mechanism
+    let classify = |prefix: &str, si: usize, b: &[String], af: &[String], dup: bool| -> BTreeSet<String> {
+        let mut tags = tags_of(b, af, &sh, dup);
+        if with_lib && !remap_lib && tags.iter().any(|t| !is_mechanism(t)) {
+            let mut o2 = Vec::new();
+            let mut st2 = BTreeMap::new();
+            run_case(case, &mut o2, &mut st2, true);
+            let still: BTreeSet<String> = o2
+                .iter()
+                .filter(|v| v["detail"]["step"] == json!(si) && v["signature"].as_str().map(|s| s.starts_with(prefix)).unwrap_or(false))
+                .flat_map(|v| v["detail"]["tags"].as_array().cloned().unwrap_or_default())
+                .filter_map(|t| t.as_str().map(|x| x.to_string()))
+                .collect();
+            let raw: Vec<String> = tags.iter().filter(|t| !is_mechanism(t)).cloned().collect();
+            if raw.iter().all(|t| !still.contains(t)) {
+                for t in raw {
+                    tags.remove(&t);
+                }
+                tags.insert("library-before-main-order".to_string());
+            }
+        }
+        tags
+    };
+    let recheck_nondeterministic = |cur: &Vec<Option<String>>, cfg: usize| -> bool { !fresh(with_lib, cfg, &survivors(cur), 10).deterministic };
     for (si, step) in steps.iter().enumerate() {
         let kind = step[0].as_str().unwrap_or("").to_string();
         let i = step[1].as_u64().unwrap_or(0) as usize;
@@ -827,34 +987,22 @@ fn run_case(case: &Value, out: &mut Vec<Value>, stats: &mut BTreeMap<String, usi
                     let d = dump(&a, &live_of(&a, &cur));
                     let s = sizes(&a);
                     if d != baseline_dump {
-                        if recheck_nondeterministic(&cur) {
+                        if recheck_nondeterministic(&cur, cfg) {
                             *stats.entry("excluded_nondeterministic_fresh".into()).or_default() += 1;
                             return judged;
                         }
                         let (b, af) = diff_lines(&baseline_dump, &d);
-                        // the files this step re-submitted
-                        let resub: BTreeSet<usize> = if kind == "batch" {
-                            step[1].as_array().map(|v| v.iter().map(|x| x.as_u64().unwrap_or(0) as usize).collect()).unwrap_or_default()
-                        } else {
-                            [i].into_iter().collect()
-                        };
-                        let shared = shared_entities();
-                        let shared_names: BTreeSet<String> = shared.keys().cloned().collect();
-                        let touches_shared = shared.values().any(|fs| fs.iter().any(|j| resub.contains(j)));
-                        let sig = if touches_shared || is_shared_entity_diff(&b, &af, &shared_names) {
-                            "C08:resubmit-changes-results-of-entity-with-contributions-from-another-file".to_string()
-                        } else if with_lib && !remap_lib && {
-                            // causal test: the same case with the library files inside the main workspace
-                            let mut o2 = Vec::new();
-                            let mut st2 = BTreeMap::new();
-                            run_case(case, &mut o2, &mut st2, true);
-                            !o2.iter().any(|v| v["detail"]["step"] == json!(si) && v["signature"].as_str().map(|s| s.starts_with("C08:resubmit-changes-results:")).unwrap_or(false))
-                        } {
-                            "C08:resubmit-changes-results-library-before-main-analysis-order".to_string()
-                        } else {
-                            format!("C08:resubmit-changes-results:{}", sections_of(&b, &af))
-                        };
-                        report("C08", sig, format!("step {si} ({kind} {}): observable results changed after re-submitting unchanged content: {} line(s) lost, {} new; first lost: {:?}; first new: {:?}", step[1], b.len(), af.len(), b.first(), af.first()), json!({"step": si, "lost": b.iter().take(8).collect::<Vec<_>>(), "new": af.iter().take(8).collect::<Vec<_>>()}));
+                        let tags = classify("C08:resubmit-changes:", si, &b, &af, has_dup_modules(&baseline_dump) || has_dup_modules(&d));
+                        let all_tags: Vec<String> = tags.iter().cloned().collect();
+                        let raw: Vec<String> = tags.iter().filter(|t| !is_mechanism(t)).cloned().collect();
+                        let what = format!("step {si} ({kind} {}): observable results changed after re-submitting unchanged content: {} line(s) lost, {} new; first lost: {:?}; first new: {:?}", step[1], b.len(), af.len(), b.first(), af.first());
+                        let detail = json!({"step": si, "tags": all_tags, "lost": b.iter().take(8).collect::<Vec<_>>(), "new": af.iter().take(8).collect::<Vec<_>>()});
+                        if !raw.is_empty() {
+                            report("C08", format!("C08:resubmit-changes:{}", raw.join("+")), what.clone(), detail.clone());
+                        }
+                        for t in tags.iter().filter(|t| is_mechanism(t)) {
+                            report("C08", format!("C08:resubmit-changes:{t}"), what.clone(), detail.clone());
+                        }
                         consistent = false;
                         continue;
                     }
@@ -864,7 +1012,6 @@ fn run_case(case: &Value, out: &mut Vec<Value>, stats: &mut BTreeMap<String, usi
                         if !size_exempt(k) && *v > b0 {
                             let mut sig = format!("C08:growth:{k}");
                             if with_lib && !remap_lib {
-                                // causal test: does the same container grow at this step when the library files are in the main workspace?
                                 let o2 = remapped.get_or_insert_with(|| {
                                     let mut o2 = Vec::new();
                                     let mut st2 = BTreeMap::new();
@@ -872,13 +1019,12 @@ fn run_case(case: &Value, out: &mut Vec<Value>, stats: &mut BTreeMap<String, usi
                                     o2
                                 });
                                 if !o2.iter().any(|x| x["detail"]["step"] == json!(si) && x["signature"] == json!(sig)) {
-                                    sig = "C08:resubmit-changes-results-library-before-main-analysis-order".to_string();
+                                    sig = "C08:resubmit-changes:library-before-main-order".to_string();
                                 }
                             }
                             report("C08", sig, format!("step {si} ({kind} {}): indexed state grew after re-submitting unchanged content: {k}: {b0} -> {v}", step[1]), json!({"step": si, "container": k, "before": b0, "after": v}));
                         }
                     }
-                    // later steps are compared with the grown state, so that each growth is reported where it happens
                     baseline_sizes = s;
                 }
             }
@@ -906,10 +1052,12 @@ fn run_case(case: &Value, out: &mut Vec<Value>, stats: &mut BTreeMap<String, usi
                         report("C10", format!("C10:mention:{sec}"), format!("step {si}: after removing {} (file id {:?}) results still refer to it: {ex:?}", files[i].path, removed_id.map(|x| x.id)), json!({"step": si, "lines": ex}));
                     }
                 }
-                // memory released: on a fresh analysis of the surviving files, adding the file and removing it again
-                // must return every container to its previous count
-                let (mut fa, _) = fresh_analysis(with_lib, &survivors(&cur));
+                // no trace: on a fresh analysis of the surviving files, adding the file and removing it again must give
+                // back every container count AND every line of the observable dump (the other files are not
+                // re-analysed in between, so nothing of theirs may change)
+                let (mut fa, _) = fresh_analysis(with_lib, cfg, &survivors(&cur));
                 let s0 = sizes(&fa);
+                let d0 = dump(&fa, &live_of(&fa, &cur));
                 fa.update_file_by_uri(&u, Some(removed_text));
                 fa.remove_file_by_uri(&u);
                 let s1 = sizes(&fa);
@@ -924,6 +1072,23 @@ fn run_case(case: &Value, out: &mut Vec<Value>, stats: &mut BTreeMap<String, usi
                 if !m1.is_empty() {
                     let sec = m1[0].split('|').next().unwrap_or("?").to_string();
                     report("C10", format!("C10:mention:{sec}"), format!("step {si}: after adding and removing {} results still refer to it: {:?}", files[i].path, m1.iter().take(3).collect::<Vec<_>>()), json!({"step": si, "lines": m1.iter().take(5).collect::<Vec<_>>()}));
+                }
+                if d1 != d0 {
+                    let (b, af) = diff_lines(&d0, &d1);
+                    let (b, af): (Vec<String>, Vec<String>) = (b.into_iter().filter(|l| !is_mention(l)).collect(), af.into_iter().filter(|l| !is_mention(l)).collect());
+                    if !b.is_empty() || !af.is_empty() {
+                        let tags = tags_of(&b, &af, &sh, has_dup_modules(&d0) || has_dup_modules(&d1));
+                        let all_tags: Vec<String> = tags.iter().cloned().collect();
+                        let raw: Vec<String> = tags.iter().filter(|t| !is_mechanism(t)).cloned().collect();
+                        let what = format!("step {si}: adding {} to an analysis of the other files and removing it again changes their results: {} line(s) lost, {} new; first lost: {:?}; first new: {:?}", files[i].path, b.len(), af.len(), b.first(), af.first());
+                        let detail = json!({"step": si, "tags": all_tags, "lost": b.iter().take(8).collect::<Vec<_>>(), "new": af.iter().take(8).collect::<Vec<_>>()});
+                        if !raw.is_empty() {
+                            report("C10", format!("C10:remove-leaves-trace:{}", raw.join("+")), what.clone(), detail.clone());
+                        }
+                        for t in tags.iter().filter(|t| is_mechanism(t)) {
+                            report("C10", format!("C10:remove-leaves-trace:{t}"), what.clone(), detail.clone());
+                        }
+                    }
                 }
             }
             "readd" => {
@@ -946,14 +1111,19 @@ fn run_case(case: &Value, out: &mut Vec<Value>, stats: &mut BTreeMap<String, usi
                     consistent = false;
                 }
             }
+            "config" => {
+                cfg = i % NCONFIGS;
+                a.update_config(Arc::new(config_of(cfg)));
+                consistent = false;
+            }
             "reindex" => {
                 a.reindex();
                 judged = true;
-                // fresh analysis loading the surviving files in file-id order
+                // fresh analysis, under the CURRENT configuration, loading the surviving files in file-id order
                 let mut live = live_of(&a, &cur);
                 live.sort_by_key(|(_, id)| id.id);
                 let fl: Vec<(String, String)> = live.iter().filter_map(|(p, _)| (0..n).find(|j| files[*j].path == *p).and_then(|j| cur[j].clone().map(|t| (p.clone(), t)))).collect();
-                let fr = fresh(with_lib, &fl, 3);
+                let fr = fresh(with_lib, cfg, &fl, 3);
                 let d = dump(&a, &live_of(&a, &cur));
                 let s = sizes(&a);
                 if !fr.deterministic {
@@ -961,12 +1131,12 @@ fn run_case(case: &Value, out: &mut Vec<Value>, stats: &mut BTreeMap<String, usi
                     return judged;
                 }
                 if d != fr.dump {
-                    if recheck_nondeterministic(&cur) {
+                    if recheck_nondeterministic(&cur, cfg) {
                         *stats.entry("excluded_nondeterministic_fresh".into()).or_default() += 1;
                         return judged;
                     }
                     let (b, af) = diff_lines(&fr.dump, &d);
-                    report("C09", format!("C09:reindex-differs-from-fresh:{}", sections_of(&b, &af)), format!("step {si}: reindex differs from a fresh analysis of the current files: {} line(s) only fresh, {} only after reindex; first: {:?} / {:?}", b.len(), af.len(), b.first(), af.first()), json!({"step": si, "only_fresh": b.iter().take(8).collect::<Vec<_>>(), "only_reindexed": af.iter().take(8).collect::<Vec<_>>()}));
+                    report("C09", format!("C09:reindex-differs-from-fresh:{}", sections_of(&b, &af)), format!("step {si}: reindex (configuration #{cfg}) differs from a fresh analysis of the current files under the same configuration: {} line(s) only fresh, {} only after reindex; first: {:?} / {:?}", b.len(), af.len(), b.first(), af.first()), json!({"step": si, "only_fresh": b.iter().take(8).collect::<Vec<_>>(), "only_reindexed": af.iter().take(8).collect::<Vec<_>>()}));
                     return judged;
                 }
                 for (k, v) in &s {
@@ -1012,6 +1182,26 @@ fn fixed_cases() -> Vec<Value> {
             {"path": "/w/m0.lua", "text": "---@schema https://example.invalid/s0.json\nlocal sch = {}\nreturn sch\n", "alt": "return 1\n"},
             {"path": "/w/m1.lua", "text": "return 1\n", "alt": "return 2\n"}],
         "steps": [["remove", 0], ["reindex"]]}));
+    // the same field of one class declared in two files; re-submitting one must keep both declarations
+    v.push(json!({"lib": false, "single": false, "cfg": 0,
+        "files": [
+            {"path": "/w/m0.lua", "text": "---@class Config\n---@field level integer\n---@field name string\n\nreturn 1\n", "alt": "---@class Config\n---@field name string\n\nreturn 1\n"},
+            {"path": "/w/m1.lua", "text": "---@class Config\n---@field level string\n---@field verbose boolean\n\nreturn 1\n", "alt": "return 2\n"},
+            {"path": "/w/m2.lua", "text": "---@type Config\nlocal cfgv = nil\nlocal lvl = cfgv and cfgv.level\nreturn lvl\n", "alt": "return 3\n"}],
+        "steps": [["resubmit", 1], ["reindex"], ["editrestore", 0]]}));
+    // a class split across two files, the super clause in the one that is removed
+    v.push(json!({"lib": false, "single": false, "cfg": 0,
+        "files": [
+            {"path": "/w/m0.lua", "text": "---@class Base\n---@field base_id integer\n\n---@class Widget\n---@field w number\n\nreturn 1\n", "alt": "return 1\n"},
+            {"path": "/w/m1.lua", "text": "---@class Widget: Base\n---@field extra string\n\nreturn 1\n", "alt": "return 2\n"},
+            {"path": "/w/m2.lua", "text": "---@type Widget\nlocal wv = nil\nlocal bid = wv and wv.base_id\nreturn bid\n", "alt": "return 3\n"}],
+        "steps": [["remove", 1], ["reindex"]]}));
+    // the module map is configured, changed and removed again
+    v.push(json!({"lib": false, "single": false, "cfg": 1,
+        "files": [
+            {"path": "/w/m0.lua", "text": "local M0 = {}\nreturn M0\n", "alt": "return 1\n"},
+            {"path": "/w/m1.lua", "text": "local ra = require(\"alias_m0\")\nlocal rb = require(\"m0\")\nreturn ra\n", "alt": "return 2\n"}],
+        "steps": [["reindex"], ["config", 2], ["reindex"], ["config", 0], ["reindex"], ["config", 3], ["reindex"]]}));
     v
 }
 
